@@ -231,6 +231,38 @@ def seeded_variants(prop):
     return out
 
 
+FILE_PROPS = {
+    "src/bldfm/solver.py": ["C01", "C02", "C03", "C04", "C05", "C06", "C07", "C10", "C11", "C12", "C15"],
+    "src/bldfm/interface.py": ["C08", "C13", "C14", "C15", "C16"],
+    "src/bldfm/config_parser.py": ["C08", "C13", "C14", "C16", "C17"],
+    "src/bldfm/cache.py": ["C15"],
+    "src/bldfm/io.py": ["C18"],
+    "src/bldfm/pbl_model.py": ["C08", "C09", "C12"],
+    "src/bldfm/utils.py": ["C08", "C13", "C20"],
+    "src/bldfm/ffm_kormann_meixner.py": ["C19"],
+    "src/bldfm/plotting/footprint.py": ["C20"],
+    "src/bldfm/plotting/_geo.py": ["C17"],
+    "src/bldfm/fft_manager.py": ["C12"],
+}
+
+
+def refactor_variants(prop):
+    """behaviour-preserving refactorings written by independent sub-agents (each verified against the test suite and an
+    equivalence digest): the checks of the properties anchored in the touched files must stay silent"""
+    out = []
+    root = os.path.join(VERIF, "refactors")
+    if not os.path.isdir(root):
+        return out
+    for f in sorted(os.listdir(root)):
+        if not f.endswith(".diff"):
+            continue
+        p = os.path.join(root, f)
+        touched = [l[6:].strip() for l in open(p) if l.startswith("+++ b/")]
+        if any(prop in FILE_PROPS.get(t, []) for t in touched):
+            out.append(("refactor-" + f[:-5], p))
+    return out
+
+
 def run_selftest(prop, jobs=None):
     """-> (records, summary).  records: dict(id, kind, expected, rc, ok, lines)"""
     jobs = jobs or min(16, (os.cpu_count() or 4))
@@ -243,6 +275,8 @@ def run_selftest(prop, jobs=None):
             work.append(("preserve", v, None))
     for sid, patch in seeded_variants(prop):
         work.append(("seeded", (sid, None, None, None), patch))
+    for rid, patch in refactor_variants(prop):
+        work.append(("preserve", (rid, None, None, None), patch))
     base = tempfile.mkdtemp(prefix="bldfm_selftest_")
     records = []
 
